@@ -329,9 +329,13 @@ tzm_find(tzmap_t m, const char *mname)
 			/* use lower half */
 			ep = (const znoff_t*)p - 1U;
 		} else {
-			/* forward to the next znoff_t alignment */
-			const znoff_t *op =
-				(const znoff_t*)ALIGN_TO(znoff_t, tp - 1U) + 1U;
+			const znoff_t *op;
+
+			/* forward to the end of the key we compared with,
+			 * a mismatch may have stopped us anywhere in it ... */
+			for (; *tp; tp++);
+			/* ... and on to the next znoff_t alignment */
+			op = (const znoff_t*)ALIGN_TO(znoff_t, tp - 1U) + 1U;
 
 			if (*mp - *tp > 0) {
 				/* use upper half */
